@@ -368,6 +368,8 @@ pub struct CompileUnit {
     pub files: Vec<(String, String)>,
     /// text placed in the batch's root file (typically `#[path = "g12.rs"] pub mod g12;`)
     pub decl: String,
+    /// statement placed in the batch's `main` (only used when the batch is run)
+    pub main_call: String,
 }
 
 fn unit_index_of(file: &str) -> Option<usize> {
@@ -384,6 +386,12 @@ fn unit_index_of(file: &str) -> Option<usize> {
 /// unit is removed and the batch re-run until every error is attributed. Returns per unit the first
 /// error attributed to it.
 pub fn check_compile(units: &[CompileUnit], crate_prelude: &str, per_batch: usize, tag: &str) -> (Vec<Option<String>>, f64) {
+    let (errs, _, secs) = compile_units(units, crate_prelude, per_batch, tag, false);
+    (errs, secs)
+}
+
+/// Like `check_compile`; with `run` the batches are fully compiled and executed and their stdout is returned.
+pub fn compile_units(units: &[CompileUnit], crate_prelude: &str, per_batch: usize, tag: &str, run: bool) -> (Vec<Option<String>>, String, f64) {
     let scratch = Scratch::new(tag);
     let n = units.len();
     for u in units {
@@ -394,7 +402,7 @@ pub fn check_compile(units: &[CompileUnit], crate_prelude: &str, per_batch: usiz
     let nb = ((n + per_batch - 1) / per_batch).max(1);
     let batches: Vec<Vec<usize>> = (0..nb).map(|b| (b..n).step_by(nb).collect()).collect();
     let t0 = std::time::Instant::now();
-    let results: Vec<Vec<(usize, String)>> = batches
+    let results: Vec<(Vec<(usize, String)>, String)> = batches
         .par_iter()
         .enumerate()
         .map(|(b, ids)| {
@@ -409,12 +417,35 @@ pub fn check_compile(units: &[CompileUnit], crate_prelude: &str, per_batch: usiz
                         src += "\n";
                     }
                 }
-                src += "fn main() {}\n";
+                src += "fn main() {\n";
+                if run {
+                    for &i in ids {
+                        if !bad[i] {
+                            src += &units[i].main_call;
+                            src += "\n";
+                        }
+                    }
+                }
+                src += "}\n";
                 let main = scratch.dir.join(format!("batch_{b}_root.rs"));
                 std::fs::write(&main, src).unwrap();
-                let outp = rustc_cmd().args(["--emit=metadata", "--crate-type", "bin", "-o"]).arg(scratch.dir.join(format!("batch_{b}.rmeta"))).arg(&main).current_dir(&scratch.dir).output().unwrap_or_else(|e| machinery_error(format!("cannot start rustc: {e}")));
+                let mut cmd = rustc_cmd();
+                if run {
+                    cmd.arg("-o").arg(scratch.dir.join(format!("batch_{b}_bin")));
+                } else {
+                    cmd.args(["--emit=metadata", "--crate-type", "bin", "-o"]).arg(scratch.dir.join(format!("batch_{b}.rmeta")));
+                }
+                let outp = cmd.arg(&main).current_dir(&scratch.dir).output().unwrap_or_else(|e| machinery_error(format!("cannot start rustc: {e}")));
                 if outp.status.success() {
-                    return bad_local;
+                    let mut stdout = String::new();
+                    if run {
+                        let (o, timed_out) = run_with_timeout(&scratch.dir.join(format!("batch_{b}_bin")), &[], 120);
+                        if timed_out {
+                            machinery_error(format!("client batch {b} did not finish within 120 s"));
+                        }
+                        stdout = o;
+                    }
+                    return (bad_local, stdout);
                 }
                 let errs = rustc_errors(&String::from_utf8_lossy(&outp.stderr));
                 let mut progress = false;
@@ -434,10 +465,12 @@ pub fn check_compile(units: &[CompileUnit], crate_prelude: &str, per_batch: usiz
         })
         .collect();
     let mut out = vec![None; n];
-    for r in results {
+    let mut stdout = String::new();
+    for (r, o) in results {
         for (i, msg) in r {
             out[i] = Some(msg);
         }
+        stdout += &o;
     }
-    (out, t0.elapsed().as_secs_f64())
+    (out, stdout, t0.elapsed().as_secs_f64())
 }
